@@ -2210,6 +2210,17 @@ def _b_abs(it, args, kw):
     return abs(v)
 
 
+def _b_divmod(it, args, kw):
+    a, b = args
+    if is_concrete([a, b]):
+        try:
+            return divmod(a, b)
+        except ZeroDivisionError as e:
+            it.raise_(ZeroDivisionError, str(e))
+    # Python's definition: (a // b, a % b), through the interpreter's own floor-division and modulo (they raise for b == 0)
+    return (it.binop(ast.FloorDiv(), a, b), it.binop(ast.Mod(), a, b))
+
+
 class _SuperInit(NativeAbs):
     def call(self, it, args, kwargs):
         it.ctx.stats["assumed_calls"]["super().__init__ of an external base class has no effect on repository state (T-LARK)"] = 1
@@ -2235,7 +2246,7 @@ BUILTIN_HANDLERS = {
     str: _b_str, int: _b_int, bool: _b_bool, hex: _b_hex, sorted: _b_sorted, min: _b_minmax(min),
     max: _b_minmax(max), list: _b_list, tuple: _b_tuple, set: _b_set, dict: _b_dict, any: _b_any, all: _b_all,
     sum: _b_sum, enumerate: _b_enumerate, zip: _b_zip, range: _b_range, dir: _b_dir, type: _b_type,
-    _copy.deepcopy: _b_deepcopy, math.ceil: _b_ceil, issubclass: _b_issubclass, abs: _b_abs, super: _b_super,
+    _copy.deepcopy: _b_deepcopy, math.ceil: _b_ceil, issubclass: _b_issubclass, abs: _b_abs, super: _b_super, divmod: _b_divmod,
 }
 
 
